@@ -15,14 +15,14 @@ the strongest true form and refuted in full form on a concrete history:
   `C06_nominated_dangling_witness`
 
 Address literals (`Cand.form`, see `IceModel.AgentCore.Cand`).  A remote candidate may be signalled through a
-non-canonical literal of its address (`::ffff:10.0.0.3` for `10.0.0.3`).  `findRemoteCandidate` and the cache keys
-canonicalise, `transportAddressEqual` (→ `Equal`, dedup, `findPair`, `removeRedundantPrflxFromSet`) compares the
-`Address()` strings.  Consequences, proved below for model = code: an inbound check from the address of a listed
-remote candidate never creates a peer-reflexive duplicate, WHATEVER literal the candidate was signalled with
-(`C06_known_source_no_new_remote`); but "remote candidates are deduplicated" and "a signalled candidate supersedes the
-peer-reflexive one with its transport address" hold only up to the literal form — full statements refuted
-(`C06_remotes_dedup_canonical_witness`, `C06_prflx_superseded_witness`), strongest true forms proved
-(`C06_remotes_dedup_canonical_partial`, `C06_prflx_superseded_partial`).
+non-canonical literal of its address (`::ffff:10.0.0.3` for `10.0.0.3`).  Every comparison of the code canonicalises
+(`findRemoteCandidate`, the cache keys and — since the fix of FORMS-1/2, /repo 2a786b2 — `transportAddressEqual` →
+`Equal`, dedup, `findPair`, `removeRedundantPrflxFromSet`), so the clauses hold at full strength whatever literals are
+signalled: an inbound check from the address of a listed remote candidate never creates a peer-reflexive duplicate
+(`C06_known_source_no_new_remote`), remote candidates are deduplicated as canonical candidates
+(`C06_remotes_dedup_canonical`), a new signalled candidate supersedes every peer-reflexive candidate with its
+transport address (`C06_prflx_superseded`).  The former counterexamples (notes/C06-forms.md) are kept as regression
+examples.
 -/
 namespace IceProps.C06
 open IceModel.AgentCore IceProofs.AgentC06
@@ -211,83 +211,45 @@ example : (run {} mappedEvs).remotes.map (fun c => (c.uid, c.ty, c.addr, c.form)
     (step (run {} mappedEvs) mappedCheck).1.checklist.map (fun p => (p.id, p.l, p.r, p.reqRecv)) = [(1, 1, 2, 1)] := by
   decide
 
-/-- FULL statement (false): in every reachable state no two remote candidates are the same candidate up to the
-spelling of the address (`canonEqual`: network type, canonical address, type, related address). -/
-def RemotesCanonDedupEverywhere : Prop :=
-  ∀ a, Reachable a → a.remotes.Pairwise (fun x y => canonEqual x y = false)
+/-- **C06_remotes_dedup_canonical** — in every reachable state no two remote candidates are the same candidate up
+to the spelling of the address (`canonEqual`: network type, canonical address, type, related address; the literal
+form is ignored) — whatever literals the history signalled. -/
+theorem C06_remotes_dedup_canonical (a : Agent) (h : Reachable a) :
+    a.remotes.Pairwise (fun x y => canonEqual x y = false) :=
+  (C06_inv a h).canon
 
-/-- the same host candidate signalled twice, as `10.0.0.3`-style literal and as its IPv4-mapped literal: both are
-kept (and one pair each with the local candidate).  Replayed on the real agent: notes/C06-forms.md. -/
+/-- regression (FORMS-1, fixed by /repo 2a786b2): the same host candidate signalled twice, as `10.0.0.3`-style
+literal and as its IPv4-mapped literal — the second is a duplicate and is dropped, the listed candidate keeps the
+literal it arrived with, one pair.  Both orders.  Replayed on the real agent in corpus/C06/agent.ops. -/
 def formDupEvs : List Ev := [.addLocal 0 wL, .addRemote 0 wH, .addRemote 0 wM]
+def formDupEvs' : List Ev := [.addLocal 0 wL, .addRemote 0 wM, .addRemote 0 wH, .addRemote 0 wM]
 
-theorem C06_remotes_dedup_canonical_witness :
-    (run {} formDupEvs).remotes.map (fun c => (c.uid, c.ty, c.net, c.addr, c.form)) = [(2, 1, 0, 32, 0), (3, 1, 0, 32, 1)] ∧
-    (run {} formDupEvs).checklist.map (fun p => (p.id, p.l, p.r)) = [(1, 1, 2), (2, 1, 3)] ∧
-    ¬ RemotesCanonDedupEverywhere := by
-  refine ⟨by decide, by decide, fun h => ?_⟩
-  have h1 := h _ ⟨{}, formDupEvs, ⟨rfl, rfl, rfl, rfl, rfl, rfl⟩, rfl⟩
-  revert h1
-  decide
+example :
+    (run {} formDupEvs).remotes.map (fun c => (c.uid, c.ty, c.net, c.addr, c.form)) = [(2, 1, 0, 32, 0)] ∧
+    (run {} formDupEvs).checklist.map (fun p => (p.id, p.l, p.r)) = [(1, 1, 2)] ∧
+    (run {} formDupEvs').remotes.map (fun c => (c.uid, c.ty, c.net, c.addr, c.form)) = [(2, 1, 0, 32, 1)] ∧
+    (run {} formDupEvs').checklist.map (fun p => (p.id, p.l, p.r)) = [(1, 1, 2)] := by decide
 
-/-- **C06_remotes_dedup_canonical_partial** — in every state reached by a history that signals remote candidates
-through canonical literals only (`evCanon`; discovered peer-reflexive candidates are always canonical), every remote
-candidate is in canonical form and no two of them are the same candidate up to spelling. -/
-theorem C06_remotes_dedup_canonical_partial (a0 : Agent) (evs : List Ev) (h0 : Init a0)
-    (hok : ∀ e ∈ evs, evCanon e = true) :
-    (∀ r ∈ (run a0 evs).remotes, r.form = 0) ∧
-      (run a0 evs).remotes.Pairwise (fun x y => canonEqual x y = false) := by
-  have hf := form_run (Inv.init h0) h0.form0 evs hok
-  refine ⟨fun r hr => by simpa using hf (core r) (mem_rcsOf hr), hf.canon ((Inv.init h0).run evs)⟩
-
-example : dupEvs.all evCanon = true ∧ mappedEvs.all evCanon = false ∧ formDupEvs.all evCanon = false := by decide
-
-/-- FULL statement (false): after a NEW signalled (not peer-reflexive) candidate was accepted, no peer-reflexive
-candidate with its network type and canonical address is listed any more. -/
-def PrflxSupersededEverywhere : Prop :=
-  ∀ a, Reachable a → ∀ now c, a.closed = false → c.ty ≠ 3 →
-    a.cfg.blockedIPs.contains (ipOf c.addr) = false →
-    (a.remotes.filter (·.net == c.net)).find? (·.equal c) = none →
-    ∀ e ∈ (step a (.addRemote now c)).1.remotes, ¬ (e.ty = 3 ∧ e.net = c.net ∧ e.addr = c.addr)
-
-/-- a peer-reflexive candidate is discovered at address 32 (`supEvs`-style), then the host candidate with that
-address is signalled as the IPv4-mapped literal: the peer-reflexive candidate is NOT superseded, both stay listed,
-and the local candidate is paired with each.  Replayed on the real agent: notes/C06-forms.md. -/
-def formPrflxEvs : List Ev := [.addLocal 0 wL, .start 0 false "ru" "rp", mappedCheck]
-
-theorem C06_prflx_superseded_witness :
-    (run {} formPrflxEvs).remotes.map (fun c => (c.uid, c.ty, c.addr, c.form)) = [(2, 3, 32, 0)] ∧
-    (step (run {} formPrflxEvs) (.addRemote 20 wM)).1.remotes.map (fun c => (c.uid, c.ty, c.addr, c.form))
-      = [(2, 3, 32, 0), (3, 1, 32, 1)] ∧
-    ¬ PrflxSupersededEverywhere := by
-  refine ⟨by decide, by decide, fun h => ?_⟩
-  have h1 := h _ ⟨{}, formPrflxEvs, ⟨rfl, rfl, rfl, rfl, rfl, rfl⟩, rfl⟩ 20 wM (by decide) (by decide) (by decide) (by decide)
-  revert h1
-  decide
-
-/-- **C06_prflx_superseded_partial** — after a NEW signalled candidate `c` was accepted, every peer-reflexive
-candidate still listed at `c`'s network type and canonical address was created from ANOTHER literal of that address
-(`e.form ≠ c.form`): supersession is exact up to the literal form.  Hence (second part) when `c` and all listed
-candidates are canonical — any history satisfying `evCanon` — none is left. -/
-theorem C06_prflx_superseded_partial (a : Agent) (h : Reachable a) (now : Nat) (c : Cand) (hc : a.closed = false)
+/-- **C06_prflx_superseded** — after a NEW signalled (not peer-reflexive) candidate `c` was accepted, no
+peer-reflexive candidate with its network type and canonical address is listed any more, whatever the literals. -/
+theorem C06_prflx_superseded (a : Agent) (h : Reachable a) (now : Nat) (c : Cand) (hc : a.closed = false)
     (hty : c.ty ≠ 3) (hb : a.cfg.blockedIPs.contains (ipOf c.addr) = false)
     (hf : (a.remotes.filter (·.net == c.net)).find? (·.equal c) = none) :
-    (∀ e ∈ (step a (.addRemote now c)).1.remotes, e.ty = 3 → e.net = c.net → e.addr = c.addr → e.form ≠ c.form) ∧
-    ((∀ r ∈ a.remotes, r.form = 0) → c.form = 0 →
-      ∀ e ∈ (step a (.addRemote now c)).1.remotes, ¬ (e.ty = 3 ∧ e.net = c.net ∧ e.addr = c.addr)) := by
-  have h1 : ∀ e ∈ (step a (.addRemote now c)).1.remotes, e.ty = 3 → e.net = c.net → e.addr = c.addr → e.form ≠ c.form := by
-    intro e he
-    simpa using step_addRemote_prflx_left (C06_inv a h) now c hc hb hf hty (core e) (mem_rcsOf he)
-  refine ⟨h1, fun hr hcf e he ⟨e1, e2, e3⟩ => ?_⟩
-  have hf0 : RemForm0 (step a (.addRemote now c)).1 :=
-    form_step (C06_inv a h) (fun x hx => by
-      obtain ⟨x0, hx0, rfl⟩ := List.mem_map.1 hx
-      simpa using hr x0 hx0) _ (by simpa [evCanon] using hcf)
-  have := hf0 (core e) (mem_rcsOf he)
-  exact h1 e he e1 e2 e3 (by rw [hcf]; simpa using this)
+    ∀ e ∈ (step a (.addRemote now c)).1.remotes, ¬ (e.ty = 3 ∧ e.net = c.net ∧ e.addr = c.addr) := by
+  intro e he
+  simpa using step_addRemote_prflx_gone (C06_inv a h) now c hc hb hf hty (core e) (mem_rcsOf he)
 
--- canonical case: the discovered peer-reflexive candidate IS superseded (non-vacuity of the second part)
-example : (step (run {} formPrflxEvs) (.addRemote 20 wH)).1.remotes.map (fun c => (c.uid, c.ty, c.addr, c.form))
-    = [(3, 1, 32, 0)] := by decide
+/-- regression (FORMS-2, fixed by /repo 2a786b2): a peer-reflexive candidate is discovered at address 32, then the
+host candidate with that address is signalled as the IPv4-mapped literal (or canonically): the peer-reflexive
+candidate is superseded, pair 1 is retargeted, the new candidate keeps its literal. -/
+def formPrflxEvs : List Ev := [.addLocal 0 wL, .start 0 false "ru" "rp", mappedCheck]
+
+example :
+    (run {} formPrflxEvs).remotes.map (fun c => (c.uid, c.ty, c.addr, c.form)) = [(2, 3, 32, 0)] ∧
+    (step (run {} formPrflxEvs) (.addRemote 20 wM)).1.remotes.map (fun c => (c.uid, c.ty, c.addr, c.form)) = [(3, 1, 32, 1)] ∧
+    (step (run {} formPrflxEvs) (.addRemote 20 wM)).1.checklist.map (fun p => (p.id, p.l, p.r)) = [(1, 1, 3)] ∧
+    (step (run {} formPrflxEvs) (.addRemote 20 wH)).1.remotes.map (fun c => (c.uid, c.ty, c.addr, c.form)) = [(3, 1, 32, 0)] := by
+  decide
 
 /-! ### id stability -/
 
